@@ -70,6 +70,18 @@ def make_jobs(chk):
                         tc = sp.txctx(leafhash=b"\x07" * 32, preamble=True) if sv == "TAPSCRIPT" else sp.txctx()
                     jobs.append(SessionJob("p%d:%s:%s" % (n, name, sv), script, mk(sg, k, sg2, k2), fl, sv, cmds=["steps"], cmp=CMP, weight=500 if sv == "TAPSCRIPT" else 0,
                                            pretend=pairs, txctx=tc))
+    # a pair is (signature, key), not the string signature || key: listed pairs whose concatenations coincide with an unlisted combination
+    # (S1 = a || b listed for P1, something listed for b || P1: then a against b || P1 is NOT listed), short and full-size items
+    for a_, b_, p1 in ((b"\xaa", b"\xbb", b"\xcc"), (b"\x30\x44" + b"\x11" * 30, b"\x02" + b"\x22" * 32, b"\x03" + b"\x33" * 31 + b"\x01"), (b"\x05" * 40, b"\x02" + b"\x06" * 31, b"\x07")):
+        s1 = a_ + b_; p2 = b_ + p1
+        for pairs in ([(s1, p1), (b"\xdd" * 3, p2)], [(b"\xdd" * 3, p2), (s1, p1)], [(s1, p1)], [(a_, b_ + p1 + b"\x00"), (s1, p1)]):
+            for name, script, mk in shapes():
+                if name not in ("checksig", "checksigverify", "checksigadd", "multisig1of1"): continue
+                for sg, k in ((a_, p2), (s1, p1), (b"\xdd" * 3, p2), (s1, p2), (a_ + b_ + p1[:1], p1[1:]), (a_, b_)):
+                    if not k: continue
+                    for sv in ("BASE", "WITNESS_V0", "TAPSCRIPT"):
+                        n += 1
+                        jobs.append(SessionJob("po%d:%s:%s" % (n, name, sv), script, mk(sg, k, b"", P1), [], sv, cmds=["steps"], cmp=CMP, weight=500 if sv == "TAPSCRIPT" else 0, pretend=pairs))
     # whole spends set up by the tool (--tx/--txin) with a signature that is NOT valid but is listed for the key it is checked against:
     # every spend type must then succeed (and an unrelated listed pair must change nothing)
     import gen_spend, btc
